@@ -30,9 +30,9 @@ def _cmp(B, tag, m1, m2, comp_map=None, sample_perm=None):
     B.eq(f"{tag}: scores", m2.scores(), m1.scores(), ignore_order=True)
 
 
-def _fit(cls, X, dim, k=2, rot=None, **kw):
+def _fit(cls, X, dim, k=2, rot=None, weights=None, **kw):
     m = M.single(cls, n_modes=k, solver="full", **kw)
-    m.fit(X, dim)
+    m.fit(X, dim, weights=weights) if weights is not None else m.fit(X, dim)
     if rot:
         m = M.rotate(m, **rot)
     return m
@@ -47,11 +47,15 @@ def h_transpose(B, cls="EOF", n=4, p=4, rot=None, order=("lon", "time", "lat")):
     _cmp(B, f"transpose to {order}", m1, m2)
 
 
-def h_permute_features(B, cls="EOF", n=4, p=3, perm=(2, 0, 1), rot=None):
+def h_permute_features(B, cls="EOF", n=4, p=3, perm=(2, 0, 1), rot=None, weights=False):
     cplx = cls == "ComplexEOF"
     X = da2d(B, "x", n, p, cplx)
-    m1 = _fit(cls, X, "time", rot=rot)
-    m2 = _fit(cls, X.isel(x=list(perm)), "time", rot=rot)
+    w = None
+    if weights:
+        # one weights object, labelled by the feature coordinate, for both layouts of the data
+        w = xr.DataArray(B.array((p,), "w", positive=True), dims=("x",), coords={"x": X["x"].values})
+    m1 = _fit(cls, X, "time", rot=rot, weights=w)
+    m2 = _fit(cls, X.isel(x=list(perm)), "time", rot=rot, weights=w)
     _cmp(B, f"feature permutation {perm}", m1, m2)
 
 
@@ -167,6 +171,7 @@ def configs(tier):
         add("h_names", f"{cls}|names=s,f", cls=cls)
     add("h_transpose", "EOF|transpose|order=lat,lon,time", order=("lat", "lon", "time"))
     add("h_permute_features", "EOFRotator|permute features", rot={"n_modes": 2, "power": 1})
+    add("h_permute_features", "EOF|permute features|weights labelled by coordinate", weights=True)
     add("h_permute_samples", "EOFRotator|permute samples", p=3, rot={"n_modes": 2, "power": 1})
     add("h_names", "EOFRotator|names=s,f", p=3, rot={"n_modes": 2, "power": 1})
     add("h_names", "EOF|names=feature,sample (swapped literals)", names=("feature", "sample"))
